@@ -24,8 +24,13 @@
     parent instead of through the heap) changes the order within a pass, not what is
     recomputed; here every child goes through the heap.
 
-    [gd] ("guard") selects the variant with the planned repair of SetStale (do nothing for a node
-    that has no height, i.e. is not in the graph); [gd = false] is the code as it is. *)
+    [gd] ("guard") selects between two versions of graph.SetStale: [gd = false] is SetStale
+    as it was when this model was written (it queued the node at whatever height it had, and
+    -1 for a node outside the graph indexes heights[-1]); [gd = true] is SetStale with the
+    repair that /repo received afterwards (commit "SetStale on a node that is not in the
+    graph no longer indexes the recompute heap at -1": return before anything is written
+    when node.height == HeightUnset).  The harness probes which of the two it is running
+    against (ClockRun.v). *)
 From incr Require Import Base.
 
 Record step_ := Step { s_at : Z; s_val : Z }.
